@@ -133,10 +133,23 @@ def e2e_systematic(ctx):
                             s[kk] = int(s[kk])
                     out.append((s, positions[k % len(positions)]))
     # fractional bounds on integers where truncation toward zero agrees with the mathematical bound
-    for s in [{"minimum": -2.5}, {"exclusiveMinimum": 2.5}, {"maximum": 7.5}, {"exclusiveMaximum": -2.5},
-              {"exclusiveMinimum": 2.5, "maximum": 7.5}, {"minimum": -7.5, "exclusiveMaximum": -2.5}, {"exclusiveMinimum": 0.5, "multipleOf": 2}]:
+    for s in FRACTIONAL:
         for pos in positions[:3]:
             out.append((dict(s, type="integer"), pos))
+    return wrap_positions(out)
+
+
+FRACTIONAL = [{"minimum": -2.5}, {"exclusiveMinimum": 2.5}, {"maximum": 7.5}, {"exclusiveMaximum": -2.5},
+              {"exclusiveMinimum": 2.5, "maximum": 7.5}, {"minimum": -7.5, "exclusiveMaximum": -2.5}, {"exclusiveMinimum": 0.5, "multipleOf": 2},
+              {"minimum": 2.5, "exclusiveMinimum": True}, {"maximum": -2.5, "exclusiveMaximum": True},
+              {"minimum": 2.5, "exclusiveMinimum": True, "maximum": 9.5}, {"minimum": -9.5, "maximum": -2.5, "exclusiveMaximum": True}]
+
+
+def e2e_fractional():
+    return wrap_positions([(dict(s, type="integer"), pos) for s in FRACTIONAL for pos in ("required", "optional", "nullable")])
+
+
+def wrap_positions(out):
     roots = []
     for s, pos in out:
         if pos in ("definition", "item-ref") and s["type"] == "number" and "multipleOf" in s:
